@@ -55,6 +55,11 @@ CLAIMS.update({
     "C04": ("table agreement between statement readers, parser dispatch, END patterns and kind tables (regex trees + AST), line-base dimension analysis", "Decides the tables END matching rests on: every construct is closed by a pattern that shares its opener's keyword and whose keywords END_WORD lists; non-unit constructs require a container; the set of tags produced by the statement readers equals the set the parser dispatches on; both symbol-kind tables have an explicit arm for every entity type and stay within the SymbolKinds the protocol offers for that notion; 1-based entity lines reach symbol ranges through exactly one `- 1`; the workspace query is case-insensitive on both operands, sorted by name and skips entries without a file. Not decided: END matching on arbitrary nestings, containers, exact start/end lines."),
 })
 
+CLAIMS.update({
+    "C05": ("argument/default resolution at every scope look-up call site (lexical vs USE-reached scope), dominating-condition and statement-order checks in the resolver", "Decides the rule table of name resolution: every look-up into a module reached by USE passes the public filter (explicitly or by default), lexical look-ups do not, the filter tests both the entity's own accessibility and the module default before the name comparison and is forwarded into nested interface look-ups; in the USE loop the ONLY list is tested before and the rename map applied to the look-up; the search order is own scope, INCLUDE/USE, host, submodule ancestors; the USE traversal is cycle-cut and a derived type's members include inherited ones. Not decided: that the declaration found is the one Fortran binds for every program (value-level), get_inner_scope's choice of scope."),
+    "C12": ("tag-table agreement between classifier and handler, dominating-facts check at every item append, argument/default resolution at collector call sites, constant folding of the type-mask length against all type ids (code and bundled JSON)", "Decides: every context tag the classifier returns is handled and every tag handled can be produced; the typed prefix is lower-cased and every completion item is appended under a lower-cased startswith test (or comes from the collector, which filters unless the prefix is empty), renamed entities under their local name; members of USE-associated modules are collected with the public filter and the ONLY list (compared on lower-cased names), USE ... ONLY: asks for public members; after CALL every candidate passes is_callable(), in USE only modules; the type mask has an entry for every type id including those of the bundled intrinsic tables; type members include inherited ones. Not decided: that the offered set equals the accessible set on every program (agreement with go-to-definition is only through the shared rules of C05)."),
+})
+
 NA_REASON = "check under construction in this round (rules designed in DESIGN.md section 3, not yet implemented); will move to checks once its rules run"
 
 
